@@ -37,6 +37,8 @@ SNIPPETS = [
     "from m1 import *\n\nuse = foo(const)\n",
     "import util\n\nzz = util.helper(3)\n",
     "from util import helper, Thing\n\nt = Thing()\ng = t.grow()\n",
+    "from helper import *\n\nhu = util()\n",
+    "import helper\n\nhv = helper.util\n",
 ]
 
 
@@ -414,6 +416,16 @@ class Sim:
                 W.get_resource(st["p"]).move(st["p"] + "~")
                 self.taint["file_moved_to_ignored_name"] = True
                 out.stats["probe_moved_to_ignored_name"] += 1
+            elif a == "c_rename_file":
+                # rename a file through rope, possibly turning a non-module into a module or back
+                if not isfile(st["p"]) or st["q"] in t or not isdir(parent(st["q"])) or self._pending_under(st["p"]) or self._pending_under(st["q"]):
+                    return "skip"
+                if st["q"].endswith(".py") and self._clash(t, st["q"]):
+                    return "skip"
+                if not st["q"].endswith(".py"):
+                    self.taint["file_moved_to_ignored_name"] = True  # (index keeps a module renamed to a non-module name: known)
+                W.get_resource(st["p"]).move(st["q"])
+                out.stats["probe_rename_file_extension_change"] += 1
             elif a == "c_remove":
                 if st["p"] not in t or self._pending_under(st["p"]):
                     return "skip"
@@ -658,7 +670,8 @@ class Sim:
 
         if isinstance(c, rc.ChangeSet):
             return any(self._cs_moves_ignored(x) for x in c.changes)
-        return isinstance(c, rc.MoveResource) and (c.resource.path.endswith("~") or c.new_resource.path.endswith("~"))
+        return isinstance(c, rc.MoveResource) and not c.resource.is_folder() and (
+            not c.resource.path.endswith(".py") or not c.new_resource.path.endswith(".py"))
 
     def _cs_has_folder(self, c):
         from rope.base import change as rc
@@ -776,6 +789,12 @@ class CoherenceEngine(Engine):
             if k == "move" and (files or pkgs):
                 p = rng.choice(pyfiles + pkgs + [d for d in dirs if d]) if (pyfiles or pkgs) else rng.choice(files)
                 return {"a": "c_move", "p": p, "dest": rng.choice(dirs), "dt": dt}
+            if k == "remove" and files and rng.random() < 0.35:
+                p = rng.choice(files)
+                d = rng.choice(dirs)
+                stem = rng.choice(MODNAMES + ["helper", "extra"])
+                q = (d + "/" if d else "") + stem + (".txt" if p.endswith(".py") and rng.random() < 0.4 else ".py")
+                return {"a": "c_rename_file", "p": p, "q": q, "dt": dt}
             if k == "remove" and (files or len(dirs) > 1):
                 if files and rng.random() < 0.3:
                     return {"a": "c_rename_to_ignored", "p": rng.choice(files), "dt": dt}
@@ -840,6 +859,8 @@ class CoherenceEngine(Engine):
         init = gen.gen_program(rng)
         for e in init:
             e["nl"] = "lf"
+        if rng.random() < 0.5:
+            init.append({"p": "helper.txt", "text": "def util():\n    return 1\n\n\nclass Thing:\n    size = 3\n", "nl": "lf", "enc": "utf-8"})
         return self._go({"init": init, "swarm": swarm, "steps": None}, rng)
 
     def replay(self, trace):
